@@ -115,6 +115,18 @@ impl ScriptHandle {
         }
     }
 
+    /// `TcpTransport::cancel` semantics: an open result that has not been handed to the manager yet is never
+    /// emitted. Returns true if a queued ConnectionOpened/OpenFailure for `id` was retracted.
+    pub fn retract_open_result(&self, id: usize) -> bool {
+        let mut s = self.0.lock();
+        let before = s.queue.len();
+        s.queue.retain(|e| match e {
+            TransportEvent::ConnectionOpened { connection_id, .. } | TransportEvent::OpenFailure { connection_id, .. } => connection_id.verif_raw() != id,
+            _ => true,
+        });
+        s.queue.len() != before
+    }
+
     pub fn take_calls(&self) -> Vec<Call> {
         std::mem::take(&mut self.0.lock().calls)
     }
